@@ -2,7 +2,7 @@ SPECIFICATION GenSpec
 CONSTANTS
   Procs = {"g1", "g2", "g3"}
   FastTypes = {"A", "B"}
-  SlowTypes = {"H"}
+  SlowTypes = {"H", "J"}
   QType = ""
   Sides = {"dec"}
   Variant = "norace"
